@@ -1014,6 +1014,14 @@ type vCrit struct {
 	subs  []string
 	nelem int
 	forms []vForm // bounds with variable arithmetic: sum coef*var + cst compared with 0
+	hvars []vHostVar
+}
+
+// a host filter that compares the address of its own stream with a host VARIABLE under the masks m4 / m6
+type vHostVar struct {
+	sub, key    string // stream and attribute(s) of the filter: chost / shost / host
+	vsub, vname string // the variable
+	m4, m6      []byte
 }
 
 // a bound of a number (or time) filter as a linear form over stream attributes
@@ -1060,6 +1068,7 @@ func (c *vCrit) collect(e *vExpr) {
 		for _, h := range a.Hosts {
 			if h.IsVar {
 				addSub(h.VSub)
+				c.hvars = append(c.hvars, vHostVar{sub: a.Sub, key: a.Key, vsub: h.VSub, vname: h.VName, m4: h.M4, m6: h.M6})
 				continue
 			}
 			c.hosts = append(c.hosts, h.IP)
@@ -1246,6 +1255,81 @@ func (c *vCrit) stream(rng *rand.Rand, events []int) *vStream {
 		s.Tags[t] = 1 << uint(rng.Intn(4))
 	}
 	return s
+}
+
+// adjustHosts makes the two addresses compared by a host-variable filter differ in exactly one bit (or not at
+// all): the last / first bit inside the mask of the address family, the first / last bit outside it, a random bit -
+// for IPv4 and IPv6 streams alike, and with the masks of the OTHER host-variable filters of the query too
+// (two filters on the same pair of variables differ only there).
+func (c *vCrit) adjustHosts(rng *rand.Rand, v vVal) {
+	if len(c.hvars) == 0 || rng.Intn(4) == 0 {
+		return
+	}
+	hv := c.hvars[rng.Intn(len(c.hvars))]
+	t, src := v[hv.sub], v[hv.vsub]
+	if t == nil || src == nil {
+		return
+	}
+	size := len(src.CHost)
+	if rng.Intn(3) == 0 {
+		size = 4
+		if rng.Intn(3) != 0 {
+			size = 16
+		}
+	}
+	fresh := func() []byte {
+		h := make([]byte, size)
+		for i := range h {
+			h[i] = byte(rng.Intn(256))
+		}
+		return h
+	}
+	if len(src.CHost) != size {
+		src.CHost, src.SHost = fresh(), fresh()
+	}
+	if len(t.CHost) != size {
+		t.CHost, t.SHost = fresh(), fresh()
+	}
+	o := src.CHost
+	if hv.vname != "chost" {
+		o = src.SHost
+	}
+	mk := c.hvars[rng.Intn(len(c.hvars))]
+	if rng.Intn(2) == 0 {
+		mk = hv
+	}
+	m := mk.m4
+	if size == 16 {
+		m = mk.m6
+	}
+	in, out := []int{}, []int{}
+	for p := 0; p < 8*size && p < 8*len(m); p++ {
+		if m[p/8]&(0x80>>uint(p%8)) != 0 {
+			in = append(in, p)
+		} else {
+			out = append(out, p)
+		}
+	}
+	cand := []int{-1, rng.Intn(8 * size)}
+	if len(in) != 0 {
+		cand = append(cand, in[0], in[len(in)-1], in[len(in)-1], in[rng.Intn(len(in))])
+	}
+	if len(out) != 0 {
+		cand = append(cand, out[0], out[0], out[len(out)-1], out[rng.Intn(len(out))])
+	}
+	n := append([]byte(nil), o...)
+	if p := cand[rng.Intn(len(cand))]; p >= 0 {
+		n[p/8] ^= 0x80 >> uint(p%8)
+	}
+	toClient := hv.key == "chost" || (hv.key == "host" && rng.Intn(2) == 0)
+	if t == src && toClient == (hv.vname == "chost") {
+		return // the filter compares an address with itself
+	}
+	if toClient {
+		t.CHost = n
+	} else {
+		t.SHost = n
+	}
 }
 
 // adjust moves one attribute of a valuation onto (or next to) the exact rational bound of one of the
@@ -1667,6 +1751,7 @@ func vRunCaseSpec(i int, text string, spec *vExpr, nvals int, seed int64, hang t
 			v[sq] = crit.stream(rng, seqs[(j+len(sq))%len(seqs)])
 		}
 		crit.adjust(rng, v)
+		crit.adjustHosts(rng, v)
 		res.Vals = append(res.Vals, v)
 		impl = append(impl, vEvalSet(q.Conditions, v, elemID))
 		if ok2 && pr2.q != nil {
